@@ -9,13 +9,15 @@ def run(chk):
                 'trash, a volume trash and a --trash-dir, with orphans and infos without payload, times DAYS in 0..3 and '
                 'no DAYS; the real trash-empty (clock through TRASH_DATE or the virtual clock) must remove exactly the '
                 'doomed pairs and leave the kept ones byte-identical (digest of payload, info unchanged). '
-                'non-trivial = something was purged')
+                'non-trivial = something was purged. Calendar stage: random (now, date, DAYS) triples incl. +-1 s, +-1 day, leap days, years 1..9999, malformed and duplicated dates, on the real trash-empty; TLC evaluates Expired through DayNumber (Dates.tla)')
     chk.assumptions += common.ASSUME + ['orphans are purged with and without DAYS (the property only demands it without)']
     common.mc(chk, properties=['PurgeFrame'])
     common.gen_tt(chk, 'days', 'Init_Dates', 'Next_EmptyDays', 10, 3000,
                   strat=lambda g: (g['lab']['opts']['days'], g['lab']['opts']['td'],
                                    tuple(sorted(i['date'] for i in g['pre']['items'])), bool(g['pre']['orph']),
                                    bool(g['pre']['strays'])), per_stratum=1, thorough_seeds=1)
+    common.fun_laws(chk)
+    common.fun_stage(chk, 'calendar', 'expiry', 60 if chk.tier == 'quick' else 1500)
     chk.exhaustive = chk.tier != 'quick'
 
 
